@@ -613,7 +613,7 @@ func (g *G) hdBody(op, delim string, quoted bool) string {
 			pool = 26
 		}
 		if g.S.Chance(1, 12) {
-			pool = 32 // includes the rare lines 26..31 (and, for C18/C01 only, 24/25 when allowed)
+			pool = 36 // includes the rare lines 26..35 (and, for C18/C01 only, 24/25 when allowed)
 		}
 		if g.O.HeredocBodyPool == 1 {
 			pool = 4
@@ -675,6 +675,14 @@ func (g *G) hdBody(op, delim string, quoted bool) string {
 			} else {
 				line = "$x " + delim
 			}
+		case 35:
+			line = "\t\t" // tabs only
+		case 34:
+			line = "two at the end \\\\" // an escaped backslash, then the newline: no continuation
+		case 33:
+			line = "\\\\`a b` after two backslashes"
+		case 32:
+			line = "dir \\\\$x and \\\\\\$y" // \\$x: escaped backslash + expansion; \\\$y: escaped backslash + escaped dollar
 		case 31:
 			// the delimiter in another letter case is not the delimiter
 			line = swapCase(delim)
@@ -765,6 +773,14 @@ func (g *G) simpleCmd() {
 		}
 		for g.S.Chance(1, 5) || g.O.HDBias && g.S.Chance(1, 4) {
 			g.redir()
+		}
+		if g.O.HDBias && g.O.Heredocs && g.canNewlineLater() && g.S.Chance(1, 50) {
+			// many here-documents pending at one newline
+			n := g.S.Range(17, 24)
+			for i := 0; i < n; i++ {
+				g.blank()
+				g.heredoc()
+			}
 		}
 	}
 }
